@@ -17,14 +17,17 @@ typedef struct { int _opaque; } vstr_c8;
 typedef struct { char __e; } std_nullopt_t;
 static const std_nullopt_t m_std_nullopt = {0};
 typedef struct { _Bool has; unsigned long size; } vopt_scope;
-typedef vopt_scope vopt_CMsgPackReadArrayScope_IMsgPackReader; typedef vopt_scope vopt_CMsgPackReadObjectScope_IMsgPackReader;
+typedef vopt_scope vopt_CMsgPackReadArrayScope_IMsgPackReader; typedef vopt_scope vopt_CMsgPackReadObjectScope_IMsgPackReader; typedef vopt_scope vopt_CMsgPackReadBinaryScope_IMsgPackReader;
 static inline vopt_scope vopt_none(std_nullopt_t n) { (void)n; vopt_scope o; o.has = 0; o.size = 0; return o; }
 static inline _Bool vopt_has(const vopt_scope* o) { return o->has; }
 #define vopt_CMsgPackReadArrayScope_IMsgPackReader_ctor__std_nullopt_t vopt_none
 #define vopt_CMsgPackReadObjectScope_IMsgPackReader_ctor__std_nullopt_t vopt_none
+#define vopt_CMsgPackReadBinaryScope_IMsgPackReader_ctor__std_nullopt_t vopt_none
 #define vopt_CMsgPackReadArrayScope_IMsgPackReader_has_value___k vopt_has
 #define vopt_CMsgPackReadObjectScope_IMsgPackReader_has_value___k vopt_has
+#define vopt_CMsgPackReadBinaryScope_IMsgPackReader_has_value___k vopt_has
 #include "gen.h"
+static inline vopt_scope vopt_CMsgPackReadBinaryScope_IMsgPackReader_make(struct CMsgPackReadBinaryScope_IMsgPackReader* t) { vopt_scope o; o.has = 1; o.size = t->mSize; return o; }
 static inline vopt_scope vopt_CMsgPackReadArrayScope_IMsgPackReader_make(struct CMsgPackReadArrayScope_IMsgPackReader* t) { vopt_scope o; o.has = 1; o.size = t->mSize; return o; }
 static unsigned long g_child_start;
 static inline vopt_scope vopt_CMsgPackReadObjectScope_IMsgPackReader_make(struct CMsgPackReadObjectScope_IMsgPackReader* t) { __CPROVER_assert(t->mStartPos == g_child_start && t->mIndex == 0, "C03: a new object scope remembers the reader position of its first key and starts at pair 0"); vopt_scope o; o.has = 1; o.size = t->mSize; return o; }
@@ -51,6 +54,7 @@ _Bool IMsgPackReader_ReadValue__ri32(struct IMsgPackReader* r, int* v) { _Bool o
 /* container heads cannot overflow: they fail only before anything is consumed (mismatched type) or on damaged (truncated) input */
 static _Bool size_consume(void) { if (rd_raise()) { if (nondet_bool()) g_skip_failed = 1; return 0; } __CPROVER_assert(g_cur % 2 == 1, "C03: a value is read at a value position"); g_value_read = 1; g_value_pair = g_cur / 2; rd_consume(); return nondet_bool(); }
 _Bool IMsgPackReader_ReadArraySize__ru64(struct IMsgPackReader* r, unsigned long* v) { _Bool ok = size_consume(); if (ok) *v = nondet_ulong(); return ok; }
+_Bool IMsgPackReader_ReadBinarySize__ru64(struct IMsgPackReader* r, unsigned long* v) { _Bool ok = size_consume(); if (ok) *v = nondet_ulong(); return ok; }
 _Bool IMsgPackReader_ReadMapSize__ru64(struct IMsgPackReader* r, unsigned long* v) { _Bool ok = size_consume(); if (ok) *v = nondet_ulong(); return ok; }
 #define KEYT struct CVariableKey_std_tuple_vstr_c8_vsv_c8_i64_u64_f32_f64_CBinTimestamp
 #define KEYF(x) CVariableKey_std_tuple_vstr_c8_vsv_c8_i64_u64_f32_f64_CBinTimestamp_##x
@@ -112,7 +116,7 @@ void h_open_##NAME(void) { OBJ s; obj_init(&s, 0); unsigned long i0 = s.mIndex; 
   VERIF_ASSERT("C03", __verif_exc != 0 || ret || g_value_read || !(g_w < g_N && g_eq_w), "an absent key means no pair of the map carries it"); \
   VERIF_ASSERT("C20,C03", __verif_exc == 0 || g_skip_failed || JX(&s), "when a request fails with an exception (other than a failed skip of damaged input) the scope stays safely destructible: everything its destructor will still skip lies inside its map"); \
   VERIF_CANARY(); }
-H_OPEN(array) H_OPEN(object)
+H_OPEN(array) H_OPEN(object) H_OPEN(binary)
 void h_finish_child(void) { OBJ s; obj_init(&s, 1);
   verif_inst_obj_finish_child__rCMsgPackReadObjectScope_IMsgPackReader(&s);
   VERIF_ASSERT("C03", __verif_exc == 0 && J(&s) && !g_key_set, "finishing a child scope moves the parent behind that pair and restores consistency");
@@ -133,6 +137,7 @@ void h_destroy_after_exc(void) { OBJ s; obj_init(&s, 0); s.mIndex = nondet_ulong
 job entry=h_value props=C03,C05,C20 mode=direct loops=1 unwind=3
 job entry=h_open_array props=C03,C05,C20 mode=direct loops=1 unwind=3
 job entry=h_open_object props=C03,C05,C20 mode=direct loops=1 unwind=3
+job entry=h_open_binary props=C03,C05,C20 mode=direct loops=1 unwind=3
 job entry=h_finish_child props=C03 mode=direct unwind=3
 job entry=h_visit_keys props=C03 mode=direct loops=1 unwind=3
 job entry=h_destroy props=C03,C20,C02 mode=direct loops=1 unwind=3 kfmap=noexcept_escape:KF-C20-objscope-dtor-throws
